@@ -12,7 +12,7 @@ THEOREMS = ['MindsVerif.Props.C04.' + n for n in (
     'C04_identifier_mindsdb', 'C04_identifier_mysql', 'C04_identifier_sqlite',
     'phi4h_mindsdb', 'phi4h_mysql', 'phi4h_sqlite', 'C04_integer', 'phi4_mindsdb', 'phi4_mysql', 'phi4_sqlite',
     'C04_witness_edge', 'C04_witness_escbs', 'C04_witness_run', 'C04_witness_simple',
-    'C04_witness_encode', 'C04_witness_ident')]
+    'C04_witness_encode', 'C04_witness_ident', 'C04_witness_backquote')]
 ASSUME = [
     'specification reading Denote (Model/Denote.lean): which escapes a literal has and what they denote (DESIGN.md §C04); '
     'mirrored independently in tools/harness/lexh.py and compared with the Lean text on every run',
@@ -177,7 +177,7 @@ def run(chk):
     S = lexh.lex_side()
     kfwords = {}
     for k in chk.kf:
-        if k.get('signature', {}).get('class') == 'unreserved-keyword':
+        if k.get('status') == 'open' and k.get('signature', {}).get('class') == 'unreserved-keyword':
             kfwords = k['signature']['words']
     n_scan = 5 if quick else 6          # exhaustive length for scanner / spec correspondence
     n_parse = 4 if quick else 5         # exhaustive length through parse_sql
@@ -476,7 +476,7 @@ def replay_witness(w, kfwords=None):
         if kfwords is None:
             kfwords = {}
             for k in json.load(open('%s/kf_proposed_C04.json' % common.ROOT)):
-                if k.get('signature', {}).get('class') == 'unreserved-keyword':
+                if k.get('status') == 'open' and k.get('signature', {}).get('class') == 'unreserved-keyword':
                     kfwords = k['signature']['words']
         return probe_ident(w['dialect'], w['parts'], kfwords)
     if kind == 'ident-source':
